@@ -188,6 +188,10 @@ func judgeName(r reporter, key string, flags uint32, f rn.Field, msg []byte, wan
 
 var nameAlpha = []string{"a", "B", "é", "Σ"}
 
+// wideAlpha: code points of plane 1, plane 2 and plane 16 (surrogate pairs whose high surrogate differs in every
+// bit group) next to both edges of the surrogate block, for the Unicode character set.
+var wideAlpha = []string{"a", "\U0001F600", "\U00020BB7", "\U0010FFFF", "\ud7ff", "\ue000"}
+
 // oemAlpha adds runes whose upper-case form has a different UTF-8 size (U+0131 shrinks to "I",
 // U+0250 grows to U+2C6F): only the OEM branch handles bytes rather than code units.
 var oemAlpha = []string{"a", "B", "é", "ı", "ɐ"}
@@ -274,6 +278,8 @@ func negotiate(c *vf.Ctx) {
 		ns := names
 		if !uni {
 			ns = enum.Strings(oemAlpha, 2)
+		} else {
+			ns = append(append([]string{}, names...), enum.Strings(wideAlpha, 2)...)
 		}
 		for _, d := range ns {
 			for _, w := range ns {
@@ -474,6 +480,16 @@ func authenticate(c *vf.Ctx) {
 					}
 				}
 			}
+		}
+	}
+	// Unicode names with supplementary-plane characters, one position at a time
+	for _, fl := range []uint32{rn.FlagNTLM | rn.FlagUnicode, rn.FlagNTLM | rn.FlagUnicode | rn.FlagESS | rn.FlagTargetInfo} {
+		var ti []byte
+		if fl&rn.FlagTargetInfo != 0 {
+			ti = sampleTargetInfo()
+		}
+		for _, n := range enum.Strings(wideAlpha, 2) {
+			cases = append(cases, authIn{fl, sc, ti, "U", "Password", n, "W"}, authIn{fl, sc, ti, "U", "Password", "D", n}, authIn{fl, sc, ti, n, "Password", "D", "W"})
 		}
 	}
 	// OEM names whose case mapping changes their UTF-8 size, one position at a time
